@@ -306,7 +306,11 @@ def fam_bundle(index):
                 rhs = K(rnd.choice([0, 1, 2, 3]))
             if op in ("<<", ">>") and rhs[0] == "k":
                 rhs = K(rnd.choice([0, 1, 4, 31]))
-            stmts.append(["bun", name, ["bin", op, V(cur), rhs]])
+            e = ["bin", op, V(cur), rhs]
+            if rnd.random() < 0.35:  # a second, anonymous step inside the same expression
+                op2 = rnd.choice([op, op, "+", "*", "-"])
+                e = ["bin", op2, e, K(rnd.choice([1, 2, 3, -2, 5]))]
+            stmts.append(["bun", name, e])
         elif kind == "filter":
             stmts.append(["bun", name, ["cond", ["cmp", rnd.choice(CMPS), V(cur), scalar()], V(cur)]])
         elif kind == "filterk":
@@ -360,6 +364,31 @@ def fam_bundle_fixed():
             add(f"{nm}-any-{op}", [["bun", "b", lit], ["sig", "r", ["cmp", op, ["any", V("b")], K(4)]]])
             add(f"{nm}-all-{op}", [["bun", "b", lit], ["sig", "r", ["cmp", op, ["all", V("b")], K(4)]]])
         add(f"{nm}-sel", [["bun", "b", lit], ["sig", "r", ["proj", ["bin", "*", ["sel", V("b"), "coal" if nm != "in" else "iron-plate"], K(2)], "signal-X"]]])
+    # every ordered pair of bundle operations, once through a named intermediate and once as ONE nested expression
+    steps = {
+        "add2": lambda e: ["bin", "+", e, K(2)],
+        "add3": lambda e: ["bin", "+", e, K(3)],
+        "subneg": lambda e: ["bin", "-", e, K(-4)],
+        "mul2": lambda e: ["bin", "*", e, K(2)],
+        "mul3": lambda e: ["bin", "*", e, K(3)],
+        "adds": lambda e: ["bin", "+", e, V("s")],
+        "div2": lambda e: ["bin", "/", e, K(2)],
+        "filter": lambda e: ["cond", ["cmp", ">", e, K(4)], e],
+        "filterk": lambda e: ["cond", ["cmp", "!=", e, K(4)], K(1)],
+        "gate-s": lambda e: ["cond", ["cmp", ">", V("s"), K(2)], e],
+        "gate-t": lambda e: ["cond", ["cmp", ">", V("t"), K(0)], e],
+    }
+    for n1, f1 in steps.items():
+        for n2, f2 in steps.items():
+            if n1.startswith("filter") and n2.startswith("filter"):
+                continue
+            add(f"chain-named-{n1}-{n2}", [["bun", "b", LIN], ["bun", "g", f1(V("b"))], ["bun", "r", f2(V("g"))]])
+            add(f"chain-cnamed-{n1}-{n2}", [["bun", "b", L3], ["bun", "g", f1(V("b"))], ["bun", "r", f2(V("g"))]])
+            if not n2.startswith("filter"):
+                add(f"chain-nested-{n1}-{n2}", [["bun", "b", LIN], ["bun", "r", f2(f1(V("b")))]])
+    add("chain3-add", [["bun", "b", LIN], ["bun", "r", ["bin", "+", ["bin", "+", ["bin", "+", V("b"), K(1)], K(2)], K(3)]]])
+    add("chain3-mul", [["bun", "b", LIN], ["bun", "r", ["bin", "*", ["bin", "*", ["bin", "*", V("b"), K(2)], K(3)], K(5)]]])
+    add("chain3-gates", [["bun", "b", LIN], ["bun", "g", ["cond", ["cmp", ">", V("s"), K(2)], V("b")]], ["bun", "h", ["cond", ["cmp", ">", V("t"), K(0)], V("g")]], ["bun", "i", ["cond", ["cmp", "<", V("s"), K(100)], V("h")]]])
     add("nested", [["bun", "b", LIN], ["bun", "n", ["bundle", [V("b"), ["lit", "coal", K(3)]]]], ["bun", "r", ["bin", "*", V("n"), K(2)]]])
     add("nested2", [["bun", "b", L3], ["bun", "b2", ["bundle", [V("a"), V("c")]]], ["bun", "n", ["bundle", [V("b"), V("b2")]]]])
     add("zero-all", [["bun", "b", ["bundle", [["lit", "signal-B", K(0)], ["lit", "coal", K(0)]]]], ["sig", "r", ["cmp", ">", ["all", V("b")], K(5)]], ["sig", "r2", ["cmp", ">", ["any", V("b")], K(5)]]])
@@ -375,7 +404,7 @@ def corpus_c02(tier):
     n = 50 if tier == "quick" else 300
     fixed = fam_bundle_fixed()
     if tier == "quick":
-        fixed = [c for i, c in enumerate(fixed) if i % 3 == 0 or "mix" in c["id"] or not c["id"].split("-")[1] in ("const", "in", "mix")]
+        fixed = [c for i, c in enumerate(fixed) if i % 3 == 0 or "mix" in c["id"] or not c["id"].split("-")[1] in ("const", "in", "mix", "named", "nested", "cnamed")]
     return fixed + [fam_bundle(i) for i in range(n)]
 
 
@@ -428,6 +457,25 @@ def fam_mem_fixed():
     two2 = _mem_prog("mfixed-two-cells-same-type", P(X), ["cmp", ">", Y, K(0)], fam="fixed")
     two2["stmts"] += [["mem", "n", "signal-M"], ["write", "n", P(Z, "signal-M"), ["cmp", "<", Y, K(0)]], ["sig", "s0", ["proj", ["read", "n"], "signal-Y"]]]
     progs.append(two2)
+    # data and enable driven by ONE input, balanced path depths: inline / named comparison / named chain
+    for dn, dexpr in (("d0", P(X)), ("d1", P(["bin", "*", X, K(2)])), ("d1typed", ["bin", "*", X, K(2)])):
+        mt = "signal-A" if dn == "d1typed" else "signal-M"
+        progs.append(_mem_prog(f"mfixed-shared-inline-{dn}", dexpr, ["cmp", ">", X, K(3)], mtype=mt, fam="fixed"))
+        c = _mem_prog(f"mfixed-shared-named-{dn}", dexpr, V("hot"), mtype=mt, fam="fixed")
+        c["stmts"].insert(3, ["sig", "hot", ["cmp", ">", X, K(3)]])
+        progs.append(c)
+        c = _mem_prog(f"mfixed-shared-named-chain-{dn}", dexpr, V("hot"), mtype=mt, fam="fixed")
+        c["stmts"].insert(3, ["sig", "hot", ["and", ["cmp", ">", X, K(3)], ["cmp", "<", X, K(100)]]])
+        progs.append(c)
+        c = _mem_prog(f"mfixed-shared-named-two-cells-{dn}", dexpr, V("hot"), mtype=mt, fam="fixed")
+        c["stmts"].insert(3, ["sig", "hot", ["cmp", ">", X, K(3)]])
+        c["stmts"] += [["mem", "n", "signal-N"], ["write", "n", P(Y, "signal-N"), V("hot")], ["sig", "s0", ["read", "n"]]]
+        progs.append(c)
+    # the same enable text / the same bare input as enable of two cells
+    for en_nm, en in (("cmp", ["cmp", ">", Y, K(0)]), ("bare", Y), ("and", ["and", ["cmp", ">", Y, K(0)], ["cmp", "<", Y, K(50)]]), ("arith", ["bin", "-", Y, K(0)])):
+        c = _mem_prog(f"mfixed-same-enable-{en_nm}", P(X), en, fam="fixed")
+        c["stmts"] += [["mem", "n", "signal-N"], ["write", "n", P(Z, "signal-N"), en], ["sig", "s0", ["read", "n"]], ["mem", "k", "signal-K"], ["write", "k", P(["bin", "+", X, Z], "signal-K"), en], ["sig", "t0", ["read", "k"]]]
+        progs.append(c)
     named_en = _mem_prog("mfixed-named-enable", P(X), V("en"), fam="fixed")
     named_en["stmts"].insert(3, ["sig", "en", ["cmp", ">", Y, K(0)]])
     progs.append(named_en)
@@ -497,6 +545,22 @@ def fam_loop_fixed():
     add("twice-read", [["write", "m", ["bin", "+", ["bin", "+", R, R], K(1)], None]])
     add("no-extra-reader", [["write", "m", ["bin", "+", R, K(2)], None]], extra_readers=False)
     add("cond-reset", [["write", "m", ["cond", ["cmp", "<", R, K(9)], ["bin", "+", R, K(1)]], None]])
+    # literal / input on the LEFT of the first step, cell on the right
+    add("int-left-1", [["write", "m", ["bin", "-", K(10), R], None]])
+    add("int-left-2", [["write", "m", ["bin", "*", ["bin", "-", K(10), R], K(3)], None]])
+    add("int-left-3", [["write", "m", ["bin", "%", ["bin", "+", K(7), ["bin", "*", K(3), R]], K(17)], None]])
+    add("int-left-named", [["sig", "s1", ["bin", "-", K(10), R]], ["sig", "s2", ["bin", "*", V("s1"), K(3)]], ["write", "m", V("s2"), None]])
+    add("input-left", [["write", "m", ["bin", "*", ["proj", ["bin", "-", X, R], "signal-M"], K(3)], None]])
+    add("cell-right-add", [["write", "m", ["bin", "+", K(1), R], None]])
+    # readers declared BEFORE the write, shared read
+    for nm, pre in (("alias", [["sig", "pre", R]]), ("arith", [["sig", "pre", ["proj", ["bin", "*", R, K(1)], "signal-Y"]]]), ("arith-same-type", [["sig", "pre", ["bin", "*", R, K(1)]]]),
+                    ("shared-cur", [["sig", "cur", R], ["sig", "pre", ["proj", ["bin", "+", V("cur"), K(5)], "signal-Y"]]])):
+        wr = ["bin", "+", V("cur") if nm == "shared-cur" else R, P(X)]
+        progs.append(_loop_prog(f"lfixed-reader-before-{nm}", pre + [["write", "m", wr, None]], fam="fixed"))
+        progs.append(_loop_prog(f"lfixed-reader-before-{nm}-const", pre + [["write", "m", ["bin", "+", V("cur") if nm == "shared-cur" else R, K(1)], None]], fam="fixed"))
+        progs.append(_loop_prog(f"lfixed-reader-before-{nm}-chain", pre + [["write", "m", ["bin", "%", ["bin", "+", V("cur") if nm == "shared-cur" else R, K(1)], K(10)], None]], fam="fixed"))
+    # two-stage loops with several further consumers of the loop output
+    add("two-stage-many-readers", [["sig", "s1", ["bin", "+", R, K(1)]], ["sig", "s2", ["bin", "%", V("s1"), K(10)]], ["write", "m", V("s2"), None], ["sig", "u1", ["proj", ["bin", "*", V("s2"), K(2)], "signal-U"]], ["sig", "u2", ["proj", ["bin", "+", V("s2"), K(7)], "signal-V"]]])
     return progs
 
 
@@ -518,7 +582,7 @@ def fam_loop(index):
             rhs = ["proj", V(rnd.choice(["x", "y"])), mtype]
         else:
             rhs = K(rnd.choice([1, 2, 3, 5, 7, 255, -1]))
-        e = ["bin", op, cur, rhs]
+        e = ["bin", op, cur, rhs] if (rnd.random() < 0.75 or op in ("%", "/", "<<", ">>")) else ["bin", op, rhs, cur]
         if named and i < steps - 1:
             body.append(["sig", f"s{i}", e])
             cur = V(f"s{i}")
@@ -884,20 +948,31 @@ def corpus_c10(tier):
     for i in range(n // 4):
         c = fam_mem(2000 + i)
         cases.append({"id": f"omem-{i:04d}", "family": "omem", "kind": "equiv", "pairs": _opt_pair(c["stmts"]), "params": {"K": 4}})
+    # several cells (shared / repeated enables) and free-running loops: each build must satisfy the same reference
+    for c in fam_mem_fixed():
+        cases.append({"id": "o" + c["id"], "family": "omemfixed", "kind": "equiv", "pairs": _opt_pair(c["stmts"]), "params": {"K": 4}})
+    for c in fam_loop_fixed():
+        cases.append(dict(c, id="o" + c["id"], family="oloopfixed"))
+    for i in range(n // 4):
+        cases.append(dict(fam_loop(2000 + i), id=f"oloop-{i:04d}", family="oloop"))
     for i in range(n // 4):
         c = fam_latch(2000 + i)
         cases.append({"id": f"olatch-{i:04d}", "family": "olatch", "kind": "equiv", "pairs": _opt_pair(c["stmts"]), "params": {"K": 4, "bool_inputs": c["params"]["bool_inputs"]}})
     return cases
 
 
-def _pq_case(cid, P, Q, rnd, limit, K=None, bools=(), dy=9):
+POLE_BUILDS = [{"tag": "opt+medium", "optimize": True, "poles": "medium"}, {"tag": "opt+small", "optimize": True, "poles": "small"}, {"tag": "noopt+substation", "optimize": False, "poles": "substation"}]
+
+
+def _pq_case(cid, P, Q, rnd, limit, K=None, bools=(), dy=9, builds=(OPT, NOOPT), same_sentinels=False):
     from .gen import interleavings, rename_prog, shift_places
 
     Pn = rename_prog(P, "p_")
     Qn = shift_places(rename_prog(Q, "q_"), 0, dy)
-    Qn = [["input", s[1], s[2], s[3] + 2000] if s[0] == "input" else s for s in Qn]  # distinct sentinels
+    if not same_sentinels:
+        Qn = [["input", s[1], s[2], s[3] + 2000] if s[0] == "input" else s for s in Qn]  # distinct sentinels
     pairs = []
-    for bi, build in enumerate((OPT, NOOPT)):
+    for bi, build in enumerate(builds):
         for ii, merged in enumerate(interleavings(Pn, Qn, limit, rnd)):
             pairs.append({"a": {"stmts": merged, "build": build, "label": f"PQ{ii}"}, "b": {"stmts": Pn, "build": build, "label": "P"}, "tag": f"{build['tag']}/i{ii}/P"})
             pairs.append({"a": {"stmts": merged, "build": build, "label": f"PQ{ii}"}, "b": {"stmts": Qn, "build": build, "label": "Q"}, "tag": f"{build['tag']}/i{ii}/Q"})
@@ -927,6 +1002,27 @@ def corpus_c12(tier):
         body.append(["sig", "o", ["proj", ["bin", "-", A, B], "signal-X"]])
         rnd = random.Random(f"pq-{nm}")
         cases.append(_pq_case(f"pq-{nm}", ins2 + body, ins2 + body, rnd, 2, dy=1))
+        cases.append(_pq_case(f"pq-{nm}-poles", ins2 + body, ins2 + body, rnd, 2, dy=2, builds=POLE_BUILDS))
+    # plain computations driving two far-apart lamps each, rows 2 tiles apart (with and without pole grids)
+    for nm, dist in (("two-lamps-18", 18), ("two-lamps-22", 22), ("two-lamps-30", 30)):
+        def prog(k1, k2):
+            return [["input", "a", "signal-A", 10007], ["sig", "x", ["bin", "*", V("a"), K(k1)]],
+                    ["place", "l1", "small-lamp", K(0), K(0), None], ["place", "l2", "small-lamp", K(dist), K(0), None],
+                    ["enable", "l1", ["cmp", ">", V("x"), K(5)]], ["enable", "l2", ["cmp", ">", V("x"), K(k2)]]]
+        rnd = random.Random(f"pq-{nm}")
+        cases.append(_pq_case(f"pq-{nm}", prog(2, 7), prog(3, 9), rnd, 2, dy=2))
+        cases.append(_pq_case(f"pq-{nm}-poles", prog(2, 7), prog(3, 9), rnd, 2, dy=2, builds=POLE_BUILDS))
+    # a source forced onto the green wire (both operands on one signal) that also fans out over a long distance
+    Pg = [["input", "b", "signal-A", 10007], ["input", "c", "signal-A", 10009], ["sig", "y", ["bin", "*", V("b"), K(3)]], ["sig", "w", ["bin", "+", V("c"), K(1)]], ["sig", "z", ["bin", "*", V("y"), V("w")]],
+          ["place", "m1", "small-lamp", K(0), K(0), None], ["place", "m2", "small-lamp", K(30), K(0), None], ["enable", "m1", ["cmp", ">", V("y"), K(5)]], ["enable", "m2", ["cmp", ">", V("y"), K(7)]],
+          ["place", "n1", "small-lamp", K(0), K(2), None], ["place", "n2", "small-lamp", K(30), K(2), None], ["enable", "n1", ["cmp", ">", V("w"), K(5)]], ["enable", "n2", ["cmp", ">", V("w"), K(7)]]]
+    Qg = [["input", "a", "signal-A", 10007], ["sig", "x", ["bin", "*", V("a"), K(2)]], ["place", "l1", "small-lamp", K(0), K(4), None], ["place", "l2", "small-lamp", K(30), K(4), None], ["enable", "l1", ["cmp", ">", V("x"), K(5)]], ["enable", "l2", ["cmp", ">", V("x"), K(7)]]]
+    cases.append(_pq_case("pq-green-fanout", Pg, Qg, random.Random("pq-green"), 3, dy=0))
+    cases.append(_pq_case("pq-green-fanout-poles", Pg, Qg, random.Random("pq-green"), 2, dy=0, builds=POLE_BUILDS[:2]))
+    # P and Q textually the same program with the SAME declared input values (only the names differ)
+    for a in ("fixed-op-*", "fixed-opk-+", "fixed-reuse", "fixed-cond->", "fixed-cmp-<", "fixed-int-var", "fixed-multi-out", "fixed-sel-pattern"):
+        rnd = random.Random(f"pq-same-{a}")
+        cases.append(_pq_case(f"pq-same-{a[6:]}", fx[a]["stmts"], fx[a]["stmts"], rnd, 2, same_sentinels=True))
     for i in range(n):
         rnd = random.Random(f"pq-{i}")
         kind = rnd.choice(["ee", "ee", "eb", "en", "bb", "nn"])
